@@ -1050,11 +1050,35 @@ def push_safe(f, fa, iv, b, recv):
     obj = vec_object(recv, fa)
     cur = value_before_borrow(fa, b, obj)
     # (i) guard on len of the vector's current value (a push in between would change the value term)
+    def same_value(t):
+        if t is cur:
+            return True
+        # `helper(&mut v, x)` inlined: `r = &mut v; if r.len() >= CAP { return Err } r.push(x)` - the length is read through the very borrow
+        # the push uses (the value term is the havoc that borrow creates), and nothing but observers receives the vector in between
+        if t.op == "havoc" and obj.op == "loc" and t.args[1] == obj.args[1]:
+            hb = t.args[2]
+            if not f.dominates(hb, b):
+                return False
+            for x in f.reachable():
+                if x == b or not (f.dominates(hb, x) and f.dominates(x, b)):
+                    continue
+                tx = f.term(x)
+                if tx["k"] != "call":
+                    continue
+                cx = callee_of(tx)
+                if cx in libmodel.LEN_FNS or cx in libmodel.CAP_FNS:
+                    continue
+                for a_ in fa.call_args(x):
+                    for y_ in subterms(a_):
+                        if (y_.op == "loc" and y_.args[1] == obj.args[1]) or y_ is t:
+                            return False
+            return True
+        return False
     for c, fc in iv.facts(b):
         if c[0] == "le":
             d = dict(c[1])
             for a, q in d.items():
-                if a.op == "call" and a.args[0] in libmodel.LEN_FNS and a.args[1][0] is cur and q == 1:
+                if a.op == "call" and a.args[0] in libmodel.LEN_FNS and same_value(a.args[1][0]) and q == 1:
                     if len(d) == 1:
                         # len + k <= 0  => len <= -k
                         if -c[2] <= cap - 1:
